@@ -204,9 +204,11 @@ struct Cfg {
     initial: Vec<(Id, bool)>,
 }
 
-fn make_cfg(ctx: &mut Ctx, u: &Universe) -> Cfg {
+fn make_cfg(ctx: &mut Ctx, u: &Universe, allow_zero_parallelism: bool) -> Cfg {
     let predicate = ctx.tape.choose(2) == 1;
-    let parallelism = 1 + ctx.tape.choose(5) as usize;
+    // (pool world: one lookup in ten is configured with parallelism 0; it can ask nobody and must still end,
+    // by the query timeout)
+    let parallelism = if allow_zero_parallelism && ctx.tape.choose(10) == 0 { 0 } else { 1 + ctx.tape.choose(5) as usize };
     let num_results = match ctx.tape.choose(8) {
         0 => 0,
         1 => 1,
@@ -282,7 +284,7 @@ fn pick_peer(ctx: &mut Ctx, r: &QRef, u: &Universe) -> (Id, &'static str) {
 pub fn run_direct(ctx: &mut Ctx) {
     interpose::set_clock_manual(0);
     let u = make_universe(ctx);
-    let cfg = make_cfg(ctx, &u);
+    let cfg = make_cfg(ctx, &u, false);
     let mut r = make_ref(&cfg, &u);
     let tnode = NodeId::new(&u.target);
     let pt = Duration::from_millis(cfg.peer_timeout_ms);
@@ -415,7 +417,7 @@ pub fn run_pool(ctx: &mut Ctx) {
     let mut done: BTreeMap<usize, u32> = BTreeMap::new();
     ctx.ev(format!("cfg pool queries={nq} query_timeout={query_timeout_ms}ms universe={}", u.ids.len()));
     for _ in 0..nq {
-        let cfg = make_cfg(ctx, &u);
+        let cfg = make_cfg(ctx, &u, true);
         let pt = Duration::from_millis(cfg.peer_timeout_ms);
         let tnode = NodeId::new(&u.target);
         let id = if cfg.predicate {
